@@ -43,6 +43,12 @@ func dhcpOptions(rt *rapid.T, g *gen.G, slots *[]spec.Slot, base int) []byte {
 	n := g.ListLen("dhcp_nopts", 12)
 	for i := 0; i < n; i++ {
 		tag := byte(g.Int("dhcp_tag", 0, 255))
+		if g.Chance("dhcp_overload_option", 1, 6) {
+			// option 52 (overload): length 1, value 1 = file, 2 = sname, 3 = both
+			*slots = append(*slots, sl(base+len(out), 1, "type", "dhcp.opt.tag"), sl(base+len(out)+1, 1, "len", "dhcp.opt.len"))
+			out = append(out, 52, 1, byte(g.Int("dhcp_overload", 0, 4)))
+			continue
+		}
 		if tag == 0 {
 			out = append(out, 0) // PAD has no length
 			continue
@@ -171,8 +177,26 @@ var pktTargets = []pktTarget{
 	{"DHCP.Write", func(rt *rapid.T, g *gen.G) ([]byte, []spec.Slot) {
 		b := g.Bytes("bootp", 236)
 		b[0], b[1], b[2] = byte(g.Int("op", 1, 2)), 1, 6
-		b = append(b, 0x63, 0x82, 0x53, 0x63)
 		slots := []spec.Slot{sl(2, 1, "len", "dhcp.hlen"), sl(236, 4, "magic", "dhcp.magic")}
+		// RFC 2131 option overload: the sname (44..107) and file (108..235) fields may themselves carry options;
+		// fill them with TLVs in a third of the packets (an overload option inside an overloaded field included)
+		if g.Chance("dhcp_fields_carry_options", 1, 3) {
+			for _, fld := range [][2]int{{44, 64}, {108, 128}} {
+				var fs []spec.Slot
+				o := dhcpOptions(rt, g, &fs, fld[0])
+				if len(o) > fld[1] {
+					o = o[:fld[1]]
+				}
+				copy(b[fld[0]:fld[0]+fld[1]], make([]byte, fld[1]))
+				copy(b[fld[0]:], o)
+				for _, s := range fs {
+					if s.Off+s.Width <= fld[0]+fld[1] {
+						slots = append(slots, s)
+					}
+				}
+			}
+		}
+		b = append(b, 0x63, 0x82, 0x53, 0x63)
 		return append(b, dhcpOptions(rt, g, &slots, 240)...), slots
 	}, func(b []byte) error { _, err := new(protocol.DHCP).Write(b); return err }},
 	{"DHCPParseOptions", func(rt *rapid.T, g *gen.G) ([]byte, []spec.Slot) {
